@@ -25,7 +25,7 @@ from common import Model, exc_name
 
 logging.disable(logging.CRITICAL)
 
-LEAN_TARGETS = ["NfcVerif.Props.C16", "drv_c16"]
+LEAN_TARGETS = ["NfcVerif.Props.C16", "drv_c16", "NfcVerif.Props.TablesTag"]
 
 THEOREMS = [
     "NfcVerif.C16.transceive_bounded",
@@ -546,6 +546,7 @@ def oracle(ck, plan, script, r):
 
 
 def run(ck):
+    ck.tables("TablesTag")   # T-tie for constants: source tables re-extracted, bridge theorems re-proved
     ck.lean("NfcVerif.Props.C16", THEOREMS)
     model = Model("drv_c16")
     from sims import retry_sims as rs
